@@ -7,7 +7,7 @@
 EXTENDS PyScopeGen
 Seq1 == <<"x">>
 X == NameSeq[1]
-NP == [n \in Names |-> NoPar]
+NP == TLCEval([n \in Names |-> NoPar])
 ClassOps == {"locset", "use", "bind", "del", "nonlocal", "global"}
 ClassBodies == { b \in UNION { [1..k -> ClassOps] : k \in 1..3 } : \E i \in DOMAIN b : b[i] = "locset" }
 Opt(e) == { <<>>, <<e>> }
